@@ -7,11 +7,7 @@ facts the file-level capstones of `Props/C01File2` take as hypotheses.
                    `Pipeline.suiteArgs` hands the callees exactly that (`argsOf`); with `C14.resolve_sound_complete`:
                    `resolve_rfc`
   B. the class     `cls12` / `cls13` (RFC) = `C01.classOf` (the `Decryptor`'s dispatch)
-  C. the key log   lines of the file ⇒ `findSessionSecrets … = fk :: fks`, `secretsOf`, `lastOf` (TLS 1.3: the last line per
-                   label; TLS ≤ 1.2: the first CLIENT_RANDOM line)
-  D. the IV        record protection of the stream and explicit-IV CBC classes does not read the key-block IV
-  E. lengths       of the RFC key block's parts and of the TLS 1.3 traffic keys ⇒ `KeyMatOk`
-  F. encrypt-then-MAC   `etmNegotiated` = the `extensions` dict has key 0x0016
+(C - F: `Lemmas/C01Rfc.lean`.)
 -/
 import TLX.Spec.RfcSuite
 import TLX.Props.C14
